@@ -81,8 +81,16 @@ def oracle_history(ctx: Ctx, stream, h, iouts):
     plains = []
     for k, (op, out) in enumerate(zip(h, iouts)):
         if op[0] == "N":
+            if out != "ok":
+                ctx.oracle_fail("edit-refused", {"history": [list(o) for o in h[:k + 1]]}, f"adding a {op[1]}x{op[2]} table -> {out}")
+                return
             plains.append(Plain(op[1], op[2]))
             continue
+        if op[0] == "W" and not (0 <= op[2] < 1000000 and 0 <= op[3] < 1000):
+            if out != "!IndexError":
+                ctx.oracle_fail("write-outside-limits-accepted", {"history": [list(o) for o in h[:k + 1]]}, f"{op} -> {out}")
+                return
+            continue      # refused: the plain grid stays as it is (the dumps that follow check it)
         if op[0] in ("W", "AR", "AC", "DR", "DC"):
             if out != "ok":
                 ctx.oracle_fail("edit-refused", {"history": [list(o) for o in h[:k + 1]]}, f"{op} -> {out}")
@@ -164,7 +172,62 @@ def exhaustive_histories(depth):
     return out
 
 
-def random_history(rng, length, ntables=1, with_save=True):
+def fixture_edit_oracle(ctx: Ctx, names):
+    """Documents written by Numbers (several tables per sheet, pivot tables, header rows, merged cells ...): every
+    ordinary table gets one value written into its last cell and one row appended; after save + reopen EVERY table
+    equals the plain grid of what was read before, with exactly those edits."""
+    import warnings
+    from numbers_parser import Document
+    warnings.simplefilter("ignore")
+    for name in names:
+        p = common.REPO / "tests" / "data" / name
+        if not p.exists():
+            continue
+        from .c02 import open_doc
+        doc, _why = open_doc(p)
+        if doc is None:
+            continue
+        case = {"fixture": name}
+        try:
+            want = {}
+            for si, sh in enumerate(doc.sheets):
+                for ti, t in enumerate(sh.tables):
+                    if doc._model.is_a_pivot_table(t._table_id) or t.num_rows * t.num_cols > 3000:
+                        continue
+                    grid = [[(type(c).__name__, c.value) for c in row] for row in t.rows()]
+                    if any(k in ("ErrorCell", "RichTextCell", "MergedCell") for row in grid for k, _ in row):
+                        continue      # cells the library warns it cannot write back as they are
+                    tok = f"edited {si}.{ti}"
+                    t.write(t.num_rows - 1, t.num_cols - 1, tok)
+                    grid[-1][-1] = ("TextCell", tok)
+                    t.add_row(default=7.0)
+                    grid.append([("NumberCell", 7.0)] * t.num_cols)
+                    want[(si, ti)] = grid
+            if not want:
+                continue
+            out = ctx.tmp / "fixture_edit.numbers"
+            doc.save(out)
+            back = Document(out)
+        except Exception as e:  # noqa: BLE001
+            ctx.oracle_fail("save-reopen-raises", case, f"{name}: {type(e).__name__}: {e}")
+            continue
+        for (si, ti), grid in want.items():
+            ctx.count("oracle-fixture-edit")
+            t2 = back.sheets[si].tables[ti]
+            got = [[(type(c).__name__, c.value) for c in row] for row in t2.rows()]
+            if (t2.num_rows, t2.num_cols) != (len(grid), len(grid[0])) or len(got) != len(grid):
+                ctx.oracle_fail("dims:reopened", dict(case, table=[si, ti]), f"{name} {t2.name}: reopened {t2.num_rows}x{t2.num_cols}, expected {len(grid)}x{len(grid[0])}")
+                continue
+            bad = [(r, c) for r in range(len(grid)) for c in range(len(grid[0]))
+                   if got[r][c][1] != grid[r][c][1] and not (got[r][c][1] != got[r][c][1] and grid[r][c][1] != grid[r][c][1])]
+            if bad:
+                r, c = bad[0]
+                ctx.oracle_fail("values:reopened", dict(case, table=[si, ti], pos=[r, c]),
+                                f"{name} {t2.name} ({r},{c}): {grid[r][c]!r} before the save (with the edits), {got[r][c]!r} after reopening; {len(bad)} cell(s) differ")
+            ctx.nontrivial(("fixture-edit", name, si, ti))
+
+
+def random_history(rng, length, ntables=1, with_save=True, late_tables=False):
     shapes = [(rng.randrange(1, 5), rng.randrange(1, 5)) for _ in range(ntables)]
     ops = [("N", a, b) for a, b in shapes]
     dims = list(shapes)
@@ -173,6 +236,20 @@ def random_history(rng, length, ntables=1, with_save=True):
         t = rng.randrange(ntables)
         nr, nc = dims[t]
         k = rng.choice(["W", "W", "W", "AR", "AC", "DR", "DC", "RO" if with_save else "W"])
+        x = rng.random()
+        if x < 0.04:
+            # a write the documented limits refuse (IndexError): nothing may change, whatever the other coordinate is
+            val += 1
+            ops.append(rng.choice([("W", t, nr + rng.randrange(3), 1000 + rng.randrange(3), val), ("W", t, -1, rng.randrange(nc), val),
+                                   ("W", t, rng.randrange(nr), -1, val), ("W", t, 1000000, nc + 1, val), ("W", t, nr + 1, 1000, val)]))
+            continue
+        if x < 0.07 and late_tables and ntables < 4:
+            # a table added in the middle of the history (placed below the sheet's last table, whatever was done to that)
+            a, b = rng.randrange(1, 4), rng.randrange(1, 4)
+            ops.append(("N", a, b))
+            dims.append((a, b))
+            ntables += 1
+            continue
         if k == "W":
             r = rng.choice([rng.randrange(nr), rng.randrange(nr), nr, nr + rng.randrange(3)])
             c = rng.choice([rng.randrange(nc), rng.randrange(nc), nc, nc + rng.randrange(2)])
@@ -233,7 +310,10 @@ def run(ctx: Ctx) -> int:
     rnd = []
     for i in range(50 if ctx.quick else 1500):
         nt = rng.choice([1, 1, 2, 3, 3])
-        rnd.append(gridlib.with_dumps(random_history(rng, rng.randrange(5, 61), nt), nt))
+        rnd.append(gridlib.with_dumps(random_history(rng, rng.randrange(5, 61), nt, late_tables=(i % 2 == 1)), nt))
+    # a table added after rows / columns of the sheet's last table were deleted or inserted (no save in between)
+    for pre in ([("DR", 0, 1, None)], [("DR", 0, 2, 1)], [("DC", 0, 1, 0)], [("AR", 0, 2, 0, None)], [("DR", 0, 1, 0), ("AR", 0, 1, None, 5)]):
+        rnd.append(gridlib.with_dumps([("N", 5, 3), ("W", 0, 4, 2, 11)] + pre + [("N", 2, 2), ("W", 1, 1, 1, 13), ("N", 3, 1)], 3) + [("RO", 0), ("RO", 1), ("RO", 2)])
     # tables whose row count sits on / next to the 256-row tile size, saved and reopened
     for h in ([("N", 256, 2), ("W", 0, 255, 1, 5), ("W", 0, 0, 0, 6), ("RO", 0)],
               [("N", 255, 1), ("AR", 0, 1, None, 7), ("W", 0, 3, 0, 8), ("RO", 0)],
@@ -279,6 +359,8 @@ def run(ctx: Ctx) -> int:
             res = [(h, None, gridlib.run_impl(ctx.tmp, f"{name}{i}", h)) for i, h in enumerate(hs)]
         for h, _, iouts in res:
             oracle_history(ctx, name, h, iouts)
+    fixture_edit_oracle(ctx, ["test-pivot.numbers", "test-1.numbers", "issue-73.numbers", "test-7.numbers", "issue-43.numbers"] if ctx.quick
+                        else sorted(p.name for p in (common.REPO / "tests" / "data").glob("*.numbers")))
     # two documents interleaved: run the ops of two histories alternately on two open documents
     inter = []
     for i in range(5 if ctx.quick else 100):
